@@ -97,6 +97,7 @@ const DET: &[&str] = &[
     "det:mixed-qualities-present-and-missing",
     "det:unmapped-with-bases-only",
     "det:missing-name-unpaired",
+    "det:placed-unmapped-no-bases",
 ];
 
 fn det_stream(name: &str) -> (Stream, Option<(usize, usize)>) {
@@ -146,6 +147,7 @@ fn det_stream(name: &str) -> (Stream, Option<(usize, usize)>) {
             r.name = None;
             vec![r, rd("r1", 0, Some(0), Some(2), &[('M', 4)], b"CGTA", &q(4))]
         }
+        "det:placed-unmapped-no-bases" => vec![rd("r0", F_UNMAPPED, Some(0), Some(24), &[], b"", b"")],
         _ => panic!("unknown deterministic case {name}"),
     };
     for (i, r) in reads.iter_mut().enumerate() {
@@ -176,7 +178,7 @@ fn gen_cases(ctx: &Ctx) -> Vec<Case> {
     for (k, e) in emaps.iter().enumerate() {
         cases.push(Case {
             class: "rand".into(),
-            gseed: ctx.seed ^ (0xE0 + k as u64) << 20,
+            gseed: 0xC07C07 ^ ((0xE0 + k as u64) << 20),
             opts: GenOpts { n_templates: 24, n_refs: 2, iupac_ref: k % 2 == 0, ..GenOpts::default() },
             preserve_names: k % 3 != 0,
             deltas: k % 2 == 0,
@@ -184,7 +186,7 @@ fn gen_cases(ctx: &Ctx) -> Vec<Case> {
             layout: Some((7, 1 + k % 3)),
         });
     }
-    let n = ctx.budget("cases", 400, 20000);
+    let n = ctx.budget("cases", 1000, 20000);
     let mut rng = Rng::new(ctx.seed, 0xC07, 0);
     for i in 0..n {
         let mut o = GenOpts::default();
@@ -244,7 +246,7 @@ fn gen_cases(ctx: &Ctx) -> Vec<Case> {
             opts: o,
             preserve_names: k % 2 == 0,
             deltas: k % 3 != 0,
-            emap: ["default", "rans4x8:1", "nx16:0x01", "bzip2:9", "tok", "aac:0x00"][k as usize % 6].into(),
+            emap: ["default", "rans4x8:1", "nx16:0x05", "bzip2:9", "tok", "aac:0x04"][k as usize % 6].into(),
             layout: None,
         });
     }
@@ -373,12 +375,12 @@ struct Cmp {
 
 fn compare(c: &Case, s: &Stream, got: &[RecordBuf]) -> Cmp {
     let mut out = Cmp { violations: Vec::new(), compared: 0 };
-    let stream_class = stream_defect_class(s);
     let mut seen: BTreeSet<String> = BTreeSet::new();
     let mut push = |out: &mut Cmp, sig: String, desc: String| {
         // one violation per signature and file is enough
+        let sig = classed(c, s, &sig);
         if seen.insert(sig.clone()) {
-            out.violations.push((format!("{stream_class}{sig}"), desc));
+            out.violations.push((sig, desc));
         }
     };
     if got.len() != s.reads.len() {
@@ -531,16 +533,119 @@ fn compare(c: &Case, s: &Stream, got: &[RecordBuf]) -> Cmp {
     out
 }
 
-/// Prefix for signatures of streams that contain a record of a known-defect class.
-fn stream_defect_class(s: &Stream) -> String {
-    let noqual = s.reads.iter().any(|r| !r.bases.is_empty() && r.quals.is_empty());
-    let nobases = s.reads.iter().any(|r| r.is_unmapped() && r.bases.is_empty());
-    match (noqual, nobases) {
-        (true, true) => "stream-has-record-without-qualities+unmapped-record-without-bases:".into(),
-        (true, false) => "stream-has-record-without-qualities:".into(),
-        (false, true) => "stream-has-unmapped-record-without-bases:".into(),
-        _ => String::new(),
+/// Reads the file back and compares: (violations, records compared).
+fn evaluate(c: &Case, s: &Stream, bytes: &[u8]) -> (Vec<(String, String)>, u64) {
+    match read_back(bytes, s) {
+        Err((stage, why)) => {
+            let sig = if stage == "panic" { format!("roundtrip:reader-panic:{why}") } else { format!("roundtrip:unreadable:{stage}:{}", classify_error(&why)) };
+            let sig = classed(c, s, &sig);
+            (vec![(sig, format!("the writer returned Ok ({} records, {} bytes) but reading the file back fails in {stage}: {why}", s.reads.len(), bytes.len()))], 0)
+        }
+        Ok(got) => {
+            let cmp = compare(c, s, &got);
+            (cmp.violations, cmp.compared)
+        }
     }
+}
+
+/// Attribution of a failed round trip to a block codec. The same stream is written once more with
+/// every block uncompressed (the series data does not depend on the encoder map); each raw block
+/// of that twin is pushed through encode+decode of the encoder the map assigns to it (H2
+/// wrappers). If a block codec is not the identity on its block, the file-level symptoms that the
+/// uncompressed twin does not show are replaced by one `block-codec-not-invertible` violation per
+/// encoder; symptoms the twin shows as well are record-layer findings and are kept.
+fn diagnose_codec(c: &Case, s: &Stream, header: &sam::Header, records: &[RecordBuf], viol: Vec<(String, String)>, o: &mut CaseOut) -> Vec<(String, String)> {
+    let mut twin = c.clone();
+    twin.emap = "none".into();
+    let WriteOutcome::Ok(tbytes) = write_cram(&twin, s, header, records) else {
+        return viol;
+    };
+    let Some(blocks) = gencram::rawwalk::blocks(&tbytes) else {
+        return viol;
+    };
+    o.count("codec_diagnoses_run", 1);
+    let mut bad: BTreeMap<String, String> = BTreeMap::new();
+    // records of each slice in file order (for fqzcomp's record lengths)
+    let mut slices: Vec<Vec<usize>> = Vec::new();
+    for ch in s.reads.chunks(c.rpc()) {
+        for sl in ch.chunks(c.rps()) {
+            slices.push(sl.iter().map(|r| r.bases.len()).collect());
+        }
+    }
+    for b in &blocks {
+        // a block of raw size 0 is never decoded by a reader (CRAM 3.x section 8)
+        if !(b.content_type == 4 || b.content_type == 5) || b.method != 0 || b.data.is_empty() {
+            continue;
+        }
+        let enc = emap::encoder_for(&c.emap, b.content_type, b.content_id);
+        if enc == "none" || bad.contains_key(&enc) {
+            continue;
+        }
+        let lens: &[usize] = slices.get(b.slice).map(|v| &v[..]).unwrap_or(&[]);
+        if let Some(why) = emap::probe(&enc, &b.data, lens) {
+            bad.insert(enc.clone(), format!(
+                "encoder {enc} is not invertible on the {} bytes of block (content type {}, content id {}) of slice {}: decode(encode(x)) {why}; x = {}{}",
+                b.data.len(), b.content_type, b.content_id, b.slice, vcore::report::hex(&b.data[..b.data.len().min(48)]), if b.data.len() > 48 { "…" } else { "" }));
+        }
+    }
+    if bad.is_empty() {
+        return viol;
+    }
+    let tv = evaluate(&twin, s, &tbytes).0;
+    let tsigs: BTreeSet<&String> = tv.iter().map(|v| &v.0).collect();
+    let mut out: Vec<(String, String)> = viol.iter().filter(|v| tsigs.contains(&v.0)).cloned().collect();
+    let symptoms: Vec<&str> = viol.iter().filter(|v| !tsigs.contains(&v.0)).map(|v| v.0.as_str()).collect();
+    if symptoms.is_empty() {
+        return viol;
+    }
+    let mut families: BTreeSet<String> = BTreeSet::new();
+    for (enc, why) in bad {
+        // the codec property itself (and the narrow diagnosis of each codec defect) is C08's; here
+        // the signature names the codec family only
+        let family = enc.split(':').next().unwrap_or(&enc).to_string();
+        if !families.insert(family.clone()) {
+            continue;
+        }
+        out.push((format!("roundtrip:block-codec-not-invertible:{family}"),
+                  format!("{why}; file-level symptoms (absent from the uncompressed twin): {}", symptoms.join(" | "))));
+    }
+    out
+}
+
+/// Signatures of symptoms that a known-defect class of the *stream* explains carry that class
+/// (from the generator's description) instead of the incidental detail: a stream with a record
+/// that has bases but no qualities explains quality mismatches and unreadable slices; one with an
+/// unmapped record without bases explains unreadable slices; one with a nameless record (names
+/// preserved) explains name mismatches. Every other symptom keeps its plain signature.
+fn classed(c: &Case, s: &Stream, sig: &str) -> String {
+    let noqual = s.reads.iter().any(|r| !r.bases.is_empty() && r.quals.is_empty());
+    let nobases = s.reads.iter().any(|r| r.is_unmapped() && r.bases.is_empty() && r.pos.is_none());
+    let zero_span = zero_span_class(s);
+    // (a nameless detached record is written with its "name" even when names are not preserved)
+    let noname = s.reads.iter().any(|r| r.name.is_none());
+    let _ = c;
+    let unreadable = sig.starts_with("roundtrip:unreadable:records:") || sig.starts_with("roundtrip:reader-panic:");
+    if noqual && sig.starts_with("roundtrip:quality-scores:") {
+        return "roundtrip:stream-has-record-without-qualities:quality-scores-differ".into();
+    }
+    if noqual && unreadable {
+        return format!("roundtrip:stream-has-record-without-qualities:{}", &sig["roundtrip:".len()..]);
+    }
+    if nobases && unreadable {
+        return format!("roundtrip:stream-has-unmapped-record-without-bases:{}", &sig["roundtrip:".len()..]);
+    }
+    if zero_span && (unreadable || sig.starts_with("roundtrip:reference:")) {
+        return format!("roundtrip:stream-has-placed-unmapped-record-without-bases:{}", &sig["roundtrip:".len()..]);
+    }
+    if noname && (sig.starts_with("roundtrip:name:") || sig.starts_with("roundtrip:regenerated-name:")) {
+        return "roundtrip:stream-has-record-without-name:names-differ".into();
+    }
+    sig.to_string()
+}
+
+/// A placed unmapped record without bases: its alignment span is zero.
+fn zero_span_class(s: &Stream) -> bool {
+    s.reads.iter().any(|r| r.is_unmapped() && r.bases.is_empty() && r.pos.is_some())
 }
 
 /// Sidecar of expected totals for the container walker (from the descriptions and the layout).
@@ -573,6 +678,7 @@ fn sidecar(c: &Case, s: &Stream) -> Json {
         "records": s.reads.len(),
         "refs": s.refs.iter().map(|r| json!({"name": r.name, "seq": String::from_utf8_lossy(&r.seq)})).collect::<Vec<_>>(),
         "containers": containers,
+        "stream_class": if zero_span_class(s) { json!("stream-has-placed-unmapped-record-without-bases") } else { Json::Null },
         "case": case_json(c),
     })
 }
@@ -590,16 +696,19 @@ fn run_case(ctx: &Ctx, idx: u64, c: &Case) -> CaseOut {
         WriteOutcome::Ok(b) => b,
         WriteOutcome::Rejected(why) => {
             o.count(&format!("writer_rejected[{why}]"), 1);
+            o.count(&format!("writer_rejected_with_encoder_map[{}]", c.emap), 1);
             o.count("files_rejected_by_writer", 1);
             return o;
         }
         WriteOutcome::Panicked(p) => {
             o.count(&format!("writer_panics[{}]", p.sig), 1);
+            o.count(&format!("writer_panicked_with_encoder_map[{}]", c.emap), 1);
             o.count("files_writer_panicked", 1);
             return o;
         }
     };
     o.count("files_written", 1);
+    o.count(&format!("files_written_with_encoder_map[{}]", c.emap), 1);
     o.count("records_written", s.reads.len() as u64);
     o.max("max_records_in_a_file", s.reads.len() as u64);
     if bytes.len() > 6 {
@@ -669,23 +778,13 @@ fn run_case(ctx: &Ctx, idx: u64, c: &Case) -> CaseOut {
     o.count("files_dumped_for_walker", 1);
 
     // (1) round trip
-    let class = stream_defect_class(&s);
-    match read_back(&bytes, &s) {
-        Err((stage, why)) => {
-            let sig = if stage == "panic" { format!("{class}roundtrip:reader-panic:{why}") } else { format!("{class}roundtrip:unreadable:{stage}:{}", classify_error(&why)) };
-            o.violation_with(
-                sig,
-                format!("the writer returned Ok ({} records, {} bytes) but reading the file back fails in {stage}: {why}", s.reads.len(), bytes.len()),
-                json!({"stream": if s.reads.len() <= 80 { s.to_json() } else { Json::Null }}),
-            );
-        }
-        Ok(got) => {
-            let cmp = compare(c, &s, &got);
-            o.count("records_compared", cmp.compared);
-            for (sig, desc) in cmp.violations {
-                o.violation_with(sig, desc, json!({"stream": if s.reads.len() <= 80 { s.to_json() } else { Json::Null }}));
-            }
-        }
+    let mut viol = evaluate(c, &s, &bytes);
+    o.count("records_compared", viol.1);
+    if !viol.0.is_empty() && c.emap != "none" {
+        viol.0 = diagnose_codec(c, &s, &header, &records, viol.0, &mut o);
+    }
+    for (sig, desc) in viol.0 {
+        o.violation_with(sig, desc, json!({"stream": if s.reads.len() <= 80 { s.to_json() } else { Json::Null }}));
     }
     o.evaluations = 1;
     o.fp = fnv1a(format!("{}|{}|{}|{layout_mask}|{feat_mask}|{pair_mask}|{}", c.emap, c.preserve_names, c.deltas, c.opts.sorted).as_bytes());
